@@ -5,6 +5,11 @@ its reason from claims.json['unclaimed'] or 'not yet built')."""
 import json, os
 V = os.path.dirname(os.path.dirname(os.path.abspath(__file__)))
 claims = json.load(open(os.path.join(V, "tools", "claims.json")))
+import glob
+for f in sorted(glob.glob(os.path.join(V, "tools", "claims.d", "C*.json"))):
+    pid = os.path.basename(f)[:-5]
+    if pid not in claims.get("hold", []):
+        claims["claimed"][pid] = json.load(open(f))
 props = [json.loads(l) for l in open(os.path.join(V, "properties.jsonl")) if l.strip()]
 checks = []
 for p in props:
